@@ -2,6 +2,8 @@ package harness
 
 import (
 	"fmt"
+	"k8s.io/apimachinery/pkg/api/resource"
+	"os"
 	"sort"
 	"strings"
 	"testing"
@@ -139,6 +141,18 @@ func drawC02(t *rapid.T) *c02Scenario {
 		} else {
 			tmpl.Spec.NodeSelector = nil
 		}
+		// ... or pinned by a label that is not a topology key of the batch (capacity type, NodePool, architecture): nodes
+		// that do not match take no part in the pod's spreads under nodeAffinityPolicy Honor, whatever runs on them
+		if tmpl.Spec.NodeSelector == nil && dpct(t, 22, l+"_labelPinned") {
+			switch rapid.IntRange(0, 2).Draw(t, l+"_pinKind") {
+			case 0:
+				tmpl.Spec.NodeSelector = map[string]string{v1.CapacityTypeLabelKey: rapid.SampledFrom([]string{v1.CapacityTypeOnDemand, v1.CapacityTypeSpot}).Draw(t, l+"_pinCT")}
+			case 1:
+				tmpl.Spec.NodeSelector = map[string]string{v1.NodePoolLabelKey: w.Pools[rapid.IntRange(0, len(w.Pools)-1).Draw(t, l+"_pinPool")].Name}
+			default:
+				tmpl.Spec.NodeSelector = map[string]string{corev1.LabelArchStable: rapid.SampledFrom([]string{"amd64", "arm64"}).Draw(t, l+"_pinArch")}
+			}
+		}
 		nc := rapid.IntRange(1, 2).Draw(t, l+"_nConstraints")
 		if rapid.IntRange(0, 9).Draw(t, l+"_unconstrained") == 9 {
 			nc = 0
@@ -157,10 +171,90 @@ func drawC02(t *rapid.T) *c02Scenario {
 			idx++
 		}
 	}
+	// profile: a workload spread over zones with nodeTaintsPolicy Honor in a cluster where some nodes carry a taint it
+	// does not tolerate; whatever runs on those nodes (often pods the spread selects, several per node) must not count
+	excludedProfile := dpct(t, 18, "excludedNodesProfile")
+	if excludedProfile {
+		honor := corev1.NodeInclusionPolicyHonor
+		app := w.Pending[0].Labels["app"]
+		for _, p := range w.Pending {
+			if s.Deploy[p.Name] != 0 {
+				continue
+			}
+			p.Spec.Tolerations = nil
+			p.Spec.NodeSelector = nil
+			p.Spec.Affinity = nil
+			p.Spec.TopologySpreadConstraints = []corev1.TopologySpreadConstraint{{MaxSkew: 1, TopologyKey: corev1.LabelTopologyZone, WhenUnsatisfiable: corev1.DoNotSchedule,
+				LabelSelector: &metav1.LabelSelector{MatchLabels: map[string]string{"app": app}}, NodeTaintsPolicy: &honor}}
+		}
+		tainted := map[string]bool{}
+		for i := range w.Nodes {
+			if dpct(t, 45, fmt.Sprintf("node%d_dedicated", i)) {
+				w.Nodes[i].ExtraTaints = append(w.Nodes[i].ExtraTaints, corev1.Taint{Key: "dedicated", Value: "x", Effect: corev1.TaintEffectNoSchedule})
+				tainted[w.Nodes[i].Name] = true
+			}
+		}
+		// an untainted twin of the first tainted node: its zone stays a domain the workload can use
+		for i := range w.Nodes {
+			if tainted[w.Nodes[i].Name] && w.Nodes[i].Stage == sim.StageInitialized && !w.Nodes[i].Marked && !w.Nodes[i].ClaimDeleting {
+				twin := w.Nodes[i]
+				twin.Name = "node-twin"
+				twin.ExtraTaints = nil
+				twin.NotReady, twin.Cordoned = false, false
+				w.Nodes = append(w.Nodes, twin)
+				break
+			}
+		}
+		// at least four replicas
+		n0 := 0
+		for _, p := range w.Pending {
+			if s.Deploy[p.Name] == 0 {
+				n0++
+			}
+		}
+		for r := n0; r < 4; r++ {
+			p := w.Pending[0].DeepCopy()
+			p.Name = fmt.Sprintf("dep0-%d", r)
+			p.UID = types.UID(fmt.Sprintf("dep0-uid-%d", r))
+			w.Pending = append(w.Pending, p)
+			s.Deploy[p.Name] = 0
+		}
+		for i, p := range w.Bound {
+			pc := 30
+			if tainted[p.Spec.NodeName] {
+				pc = 75
+			}
+			if dpct(t, pc, fmt.Sprintf("bound%d_selected", i)) {
+				p.Labels["app"] = app
+				p.Spec.Affinity = nil
+			}
+		}
+		// a tainted node often runs several (small) pods of the workload
+		extra := 0
+		for _, n := range w.Nodes {
+			if !tainted[n.Name] || n.Stage != sim.StageInitialized {
+				continue
+			}
+			for j := 0; j < rapid.IntRange(0, 3).Draw(t, "extraSelected_"+n.Name); j++ {
+				extra++
+				ep := &corev1.Pod{ObjectMeta: metav1.ObjectMeta{Name: fmt.Sprintf("bound-x%d", extra), Namespace: "default", UID: types.UID(fmt.Sprintf("bound-uid-x%d", extra)), Labels: map[string]string{"app": app}},
+					Spec: corev1.PodSpec{Containers: []corev1.Container{{Name: "c", Image: "img", Resources: corev1.ResourceRequirements{Requests: corev1.ResourceList{corev1.ResourceCPU: resource.MustParse("50m")}}}},
+						Tolerations: []corev1.Toleration{{Operator: corev1.TolerationOpExists}}}}
+				w.Bound = append(w.Bound, sim.Bound(ep, n.Name))
+			}
+		}
+	}
 	// bound pods: a few carry labels the batch selects; BoundPod already draws anti-affinity occasionally
 	for i, p := range w.Bound {
 		if rapid.IntRange(0, 3).Draw(t, fmt.Sprintf("bound%d_dep", i)) == 3 {
 			p.Labels["dep"] = fmt.Sprintf("dep%d", rapid.IntRange(0, nd-1).Draw(t, fmt.Sprintf("bound%d_depV", i)))
+		}
+		// neighbours on one node often belong to one workload
+		if i > 0 && w.Bound[i-1].Spec.NodeName == p.Spec.NodeName && dpct(t, 50, fmt.Sprintf("bound%d_sameApp", i)) {
+			p.Labels["app"] = w.Bound[i-1].Labels["app"]
+			if d, ok := w.Bound[i-1].Labels["dep"]; ok {
+				p.Labels["dep"] = d
+			}
 		}
 	}
 	return s
@@ -327,6 +421,24 @@ func execC02(s *c02Scenario, c *ev.Ctx) {
 	// ---- where every pod is in the end state
 	batch := map[types.UID]bool{}
 	var pods []*c02Pod
+	// relaxedToleration: deployments one of whose replicas was placed only after relaxation added the PreferNoSchedule
+	// toleration (the placed copy carries more tolerations than the pod that was submitted)
+	relaxedToleration := map[int]bool{}
+	noteRelaxed := func(placed []*corev1.Pod) {
+		for _, rp := range placed {
+			if orig := b.Originals[rp.UID]; orig != nil && len(rp.Spec.Tolerations) > len(orig.Spec.Tolerations) {
+				if d, ok := s.Deploy[orig.Name]; ok {
+					relaxedToleration[d] = true
+				}
+			}
+		}
+	}
+	for _, en := range res.ExistingNodes {
+		noteRelaxed(en.Pods)
+	}
+	for _, nc := range res.NewNodeClaims {
+		noteRelaxed(nc.Pods)
+	}
 	for _, en := range res.ExistingNodes {
 		if len(en.Pods) == 0 {
 			continue
@@ -661,9 +773,12 @@ func execC02(s *c02Scenario, c *ev.Ctx) {
 			if key == corev1.LabelHostname {
 				c.Class("spread_hostname")
 			}
+			if os.Getenv("VERIF_DBG") != "" && honorTaints {
+				fmt.Printf("C02DBG %s key=%s d=%s count=%v floating=%v eligible=%v upperMin=%d\n", p.pod.Name, shortKey(key), d, count, floating, eligible, upperMin)
+			}
 			if skew := count[d] - upperMin; skew > int(tsc.MaxSkew) {
 				sig := "spread:" + shortKey(key) + ":max-skew-exceeded"
-				if honorTaints && softTaintPool {
+				if honorTaints && softTaintPool && relaxedToleration[s.Deploy[p.pod.Name]] {
 					// relaxation changes the pod's tolerations, which are part of the group identity when taints are
 					// honored: the re-created group forgets the replicas placed earlier in the pass
 					sig = "spread:max-skew-exceeded:group-recreated-after-relaxation"
